@@ -825,3 +825,11 @@ CORPUS += [
     V("C19", "mtvrp-load-capacity-not-rescaled-again", R + "mtvrp/env.py", '            # the capacity is expressed in the same (normalised) unit as the demands\n            td_load.set(\n                "vehicle_capacity",\n                td_load["vehicle_capacity"] / td_load["capacity_original"],\n            )\n', "", "C19.b"),
     V("C19", "mtvrp-load-backhaul-not-rescaled", R + "mtvrp/env.py", '            td_load.set(\n                "demand_backhaul",\n                td_load["demand_backhaul"] / td_load["capacity_original"],\n            )\n', "", "C19.b"),
 ]
+
+_PC = R + "pctsp/env.py"
+CORPUS += [
+    V("C01", "pctsp-mask-literal-requirement-again", _PC, '(td["cur_total_prize"] < td["prize_required"])', '(td["cur_total_prize"] < 1.0)', "C01.b"),
+    V("C05", "pctsp-mask-literal-requirement-again-c05", _PC, '(td["cur_total_prize"] < td["prize_required"])', '(td["cur_total_prize"] < 1.0)', "C05.c"),
+    V("C06", "pctsp-checker-literal-requirement-again", _PC, '(p.sum(-1) >= td["prize_required"] - 1e-5)', "(p.sum(-1) >= 1 - 1e-5)", "C06.a"),
+    V("C06", "pctsp-checker-tolerance-on-strict-side", _PC, '(p.sum(-1) >= td["prize_required"] - 1e-5)', '(p.sum(-1) >= td["prize_required"] + 1e-5)', "C06.b"),
+]
